@@ -26,6 +26,8 @@ tvars == <<rvars, tid, l, verdict, vkind, vnew, seen, adopted, lastSw, mon>>
 ToSet(seq) == {seq[i] : i \in 1..Len(seq)}
 Layout(j) == [comps |-> j.comps, has |-> j.has, resets |-> j.resets, plain |-> j.plain,
               feedbacks |-> {[o |-> j.feedbacks[i].o, key |-> j.feedbacks[i].key] : i \in 1..Len(j.feedbacks)},
+              fbtypes |-> [k \in {j.feedbacks[i].key : i \in 1..Len(j.feedbacks)} |->
+                             (LET i == CHOOSE i \in 1..Len(j.feedbacks) : j.feedbacks[i].key = k IN j.feedbacks[i].ty)],
               teleAuto |-> j.teleAuto, modes |-> ToSet(j.modes), defmode |-> j.defmode, period |-> j.period]
 
 TInit == /\ tid \in 1..Len(Batch) /\ l = 1 /\ verdict = "" /\ vkind = "" /\ vnew = FALSE /\ seen = {}
@@ -38,6 +40,8 @@ NoVerdict == /\ verdict' = verdict /\ vkind' = vkind /\ vnew' = FALSE
 
 ValsDiffer(v) == \E c \in CompSet : \E a \in Attrs(c) : v[c][a] # rv[c][a]
 FbDiffer(f) == \E k \in DOMAIN fbNT : f[k] # fbNT[k]
+\* once published, the topic has the documented type for the getter's return hint
+FbTypeDiffer(ft) == \E k \in DOMAIN fbNT : fbNT[k] # -1 /\ FbTypeString(sh.fbtypes[k]) # "" /\ ft[k] # FbTypeString(sh.fbtypes[k])
 
 \* data clauses that fail for event ev in the current state (before ev is applied)
 DataDiffs(ev) ==
@@ -49,11 +53,12 @@ DataDiffs(ev) ==
             \cup (IF ev.k = "auto.on_iteration" /\ ev.arg # now - autoT0 THEN {"arg"} ELSE {})
       [] ev.e = "wait" ->
             (IF ev.t # now THEN {"t"} ELSE {}) \cup (IF FbDiffer(ev.fb) THEN {"fb"} ELSE {})
+            \cup (IF FbTypeDiffer(ev.fbt) THEN {"fbtype"} ELSE {})
       [] ev.e = "wake" -> IF ev.t # Max(now, alarm) THEN {"t"} ELSE {}
       [] OTHER -> {}
 
 DataOwner(c) == CASE c = "t" -> {"C05"} [] c = "m" -> {"C05"} [] c = "vals" -> {"C10"}
-                  [] c = "inj" -> {"C06"} [] c = "arg" -> {"C05"} [] c = "fb" -> {"C11"}
+                  [] c = "inj" -> {"C06"} [] c = "arg" -> {"C05"} [] c = "fb" -> {"C11"} [] c = "fbtype" -> {"C11"}
 
 Lifecycle == {"setup", "on_enable", "on_disable"}
 \* who owns a disagreement about WHICH event comes next
@@ -96,7 +101,7 @@ MonMismatch(ev, m1) ==
 
 Consume ==
     LET ev == T.steps[l].in
-        d  == DataDiffs(ev) \ (IF adopted = l THEN {"inj"} ELSE {})
+        d  == DataDiffs(ev) \ (IF adopted = l THEN {"inj", "fbtype"} ELSE {})
         owners == UNION {DataOwner(c) : c \in d}
     IN
     IF ~EvEnabled(ev)
